@@ -683,6 +683,9 @@ class Interp:
         v = self.expr(e.operand, env, cls)
         if isinstance(e.op, ast.Not):
             return not self.truth(v, U(e.operand))
+        if isinstance(e.op, ast.Invert) and isinstance(v, FlagV):
+            allm = set(self.idx.classes[v.cls].class_attrs) if v.cls in self.idx.classes else set()
+            return FlagV(v.cls, frozenset(allm - set(v.members)))
         if isinstance(v, (int, float)) and not isinstance(v, bool):
             if isinstance(e.op, ast.USub):
                 return -v
